@@ -2870,10 +2870,22 @@ void tokenize(const deque<int> &data, Chunk *ref)
       }
       else
       {
-         // Check for a preprocessor start
+         // Check for a preprocessor start: a '#' that only has comments between
+         // it and the start of its line (a comment is white space, and one that
+         // spans lines contains a newline)
+         Chunk *before = rprev;
+
+         while (  before->IsNotNullChunk()
+               && before->IsComment()
+               && !before->Is(CT_COMMENT_MULTI))
+         {
+            before = before->GetPrev();
+         }
+
          if (  pc->Is(CT_POUND)
-            && (  rprev->IsNullChunk()
-               || rprev->Is(CT_NEWLINE)))
+            && (  before->IsNullChunk()
+               || before->Is(CT_NEWLINE)
+               || before->Is(CT_COMMENT_MULTI)))
          {
             pc->SetType(CT_PREPROC);
             pc->SetFlagBits(PCF_IN_PREPROC);
